@@ -13,6 +13,10 @@ pub trait IGlue: Glue {
     fn count() -> Option<usize> {
         None
     }
+    /// `E::COUNT` as users write it (trait in scope), not `<E as EnumCount>::COUNT`
+    fn count_short() -> Option<usize> {
+        None
+    }
     fn variant_names() -> Option<&'static [&'static str]> {
         None
     }
@@ -598,6 +602,10 @@ pub fn c08<E: IGlue>(ctx: &mut Ctx) {
     let cnt = E::iter().take(2 * n_en + 8).count();
     if E::count() != Some(n_en) || cnt != n_en {
         ctx.fail("count-vs-enabled", input.clone(), format!("COUNT = iter().count() = {}", n_en), format!("COUNT {:?} iter().count() {}", E::count(), cnt));
+    }
+    // the short path `E::COUNT` must name the same constant (nothing the other derives add may capture it)
+    if E::count_short().is_some() && E::count_short() != E::count() {
+        ctx.fail("count-short-path", input.clone(), format!("E::COUNT = {:?}", E::count()), format!("E::COUNT = {:?}", E::count_short()));
     }
     if let Some(names) = E::variant_names() {
         ctx.eval();
